@@ -814,7 +814,8 @@ C19_ENTRY = re.compile(
     r"(set_)?decode[A-Za-z0-9_]*|verify[A-Za-z0-9_]*|ECDH|one_way_map|hash_to_curve|map_to_curve|from_seed|"
     r"update|digest[A-Za-z0-9_]*|finali[sz]e[A-Za-z0-9_]*|reset|hash[A-Za-z0-9_]*|inject|flip|extract|"
     r"[A-Za-z0-9_]*_vartime|x25519[A-Za-z0-9_]*|x448[A-Za-z0-9_]*|assemble_signature|choose|prepare_truncate|"
-    r"is_in_subgroup|has_low_order|to_montgomery_u|encode[A-Za-z0-9_]*|from_affine|from_point|get_commitment")
+    r"is_in_subgroup|has_low_order|to_montgomery_u|encode[A-Za-z0-9_]*|from_affine|from_point|get_commitment|"
+    r"for_benchmarks_only[A-Za-z0-9_]*")      # raw GLS254 ECDH variants taking peer-point bytes (feature gls254bench)
 C10_ENTRY = re.compile(r"(set_)?mul(128|64mu)?_add_mulgen_vartime|verify_helper_vartime")
 C11_ENTRY = re.compile(r"split_vartime|split_mu(_odd)?|split_theta|mul_divr_rounded|lagrange[A-Za-z0-9_]*")
 C15_ENTRY = re.compile(r".*")  # every public function of the frost modules
